@@ -483,7 +483,7 @@ func checkC08(c *Ctx) {
 			}
 		}
 	}
-	c.Rule = fmt.Sprintf("%d terminating programs (straight line; HALT first; multi-byte instruction with a breakpoint inside; code wrapping FFFF->0000 into a HALT; DJNZ loop with a breakpoint on its head; LDIR with a breakpoint on itself; CALL/RET; EI + IN/OUT with handlers; DI;HALT; prefix-only tail; JP; HALT at FFFF; HALT at 0000; HALT;HALT) x all subsets of each program's 2..5 candidate breakpoint addresses + nil map + stale halted indication (%d configurations) x history Run;Run;Run;Run x {no request; NMI, IM1, a mode-0 request whose instruction is HALT, mode-0 RST 38, mode-0 INC A raised from inside the memory/port callback at every access index j of the history, or already pending when the first Run is entered}; breakpoint maps edited in place between two Runs (one address swapped for another, the map object and its size unchanged; the map replaced by an equal new object). Contexts: Background, a WithCancel context nobody cancels, a WithValue child. Breakpoint edits from inside a device callback at every access index 0..39 (install the map when the field was nil on entry; set the field to nil; add addresses to an empty map) x 3 address sets; a callback swapping one breakpoint for another in place (map size unchanged) at access 0..23, in small sets and in sets with 40 more addresses the program never reaches; all static subsets again in such a large set. Concrete-type pass: every program by Run on the package's own DumbMemory (len 65536 and 65536+256) / MapMemory and DumbIO handed over unwrapped, against a Step-driven twin on identical devices behind opaque wrappers, with nil / never-reached breakpoints, two Runs: same error, States (incl. R), HALT and device contents. Oracle: Step-driven twin with the stop rule applied outside. Non-trivial = histories with at least one breakpoint hit or callback-raised request (counted).", len(progs), len(cases))
+	c.Rule = fmt.Sprintf("%d terminating programs (straight line; HALT first; multi-byte instruction with a breakpoint inside; code wrapping FFFF->0000 into a HALT; DJNZ loop with a breakpoint on its head; LDIR with a breakpoint on itself; CALL/RET; EI + IN/OUT with handlers; DI;HALT; prefix-only tail; JP; HALT at FFFF; HALT at 0000; HALT;HALT) x all subsets of each program's 2..5 candidate breakpoint addresses + nil map + stale halted indication (%d configurations) x history Run;Run;Run;Run x {no request; NMI, IM1, a mode-0 request whose instruction is HALT, mode-0 RST 38, mode-0 INC A raised from inside the memory/port callback at every access index j of the history, or already pending when the first Run is entered}; breakpoint maps edited in place between two Runs (one address swapped for another, the map object and its size unchanged; the map replaced by an equal new object). Contexts: Background, a WithCancel context nobody cancels, a WithValue child. Breakpoint edits from inside a device callback at every access index 0..39 (install the map when the field was nil on entry; set the field to nil; add addresses to an empty map) x 3 address sets; a callback swapping one breakpoint for another in place (map size unchanged) at access 0..23, in small sets and in sets with 40 more addresses the program never reaches; all static subsets again in such a large set. Concrete-type pass: every program by Run on the package's own DumbMemory (len 65536 and 65536+256) / MapMemory and DumbIO handed over unwrapped, against a Step-driven twin on identical devices behind opaque wrappers, with nil / never-reached breakpoints, two Runs: same error, States (incl. R), HALT and device contents. A machine struct that embeds z80.CPU and is its own Memory and IO, driven by Step and by Run (in a process of its own). Placement: every program on CPUs that are elements of a []CPU and fields behind a uint32 / uint8 in a larger struct. Oracle: Step-driven twin with the stop rule applied outside. Non-trivial = histories with at least one breakpoint hit or callback-raised request (counted).", len(progs), len(cases))
 	c.Bound = "4 Run calls; <=1 callback-raised request at every access index (thorough: <=2, every pair of indices)"
 	bg := obsBackground(c)
 	type sidePair struct{ a, b *c08Side }
@@ -583,6 +583,8 @@ func checkC08(c *Ctx) {
 		c.Transitions += steps[i]
 	}
 	c08Concrete(c, progs)
+	c08Placement(c, progs)
+	runMachineScenario(c, "c08/machine")
 	c.States = c.Evaluations * 4
 	c.Traces = c.Evaluations
 	c.Exhaustive = true
@@ -715,4 +717,65 @@ func c08Concrete(c *Ctx, progs []c08Prog) {
 	c.Evaluations += n
 	c.Nontrivial += n
 	c.Set("concrete_type_runs", n)
+}
+
+// c08Placement: where a CPU value lives is the embedder's business - an element of a []CPU, a field behind a
+// uint32 or a uint8 in a larger struct, a by-value copy on the stack. Run and Step must not care (on 32-bit
+// targets 64-bit atomics on a misplaced field panic; bin/check repeats C08 compiled for GOARCH=386).
+func c08Placement(c *Ctx, progs []c08Prog) {
+	type board struct {
+		tag  uint32
+		cpu  z80.CPU
+		b    uint8
+		cpu2 z80.CPU
+	}
+	bg := obsBackground(c)
+	var n int64
+	for pi := range progs {
+		p := &progs[pi]
+		arr := make([]z80.CPU, 5)
+		brd := &board{}
+		places := []*z80.CPU{&arr[0], &arr[1], &arr[2], &arr[3], &arr[4], &brd.cpu, &brd.cpu2}
+		for wi, cpu := range places {
+			mem := obs.NewMem(bg)
+			mem.Limit = 200000
+			for _, pk := range p.code {
+				mem.Poke(pk.Addr, pk.Data...)
+			}
+			*cpu = z80.CPU{Memory: mem, IO: &obs.IO{X: 0x21, Y: 0x35}}
+			base := baseVector(0)
+			st := base.S
+			st.PC, st.SP, st.IM = p.pc, 0xF000, 1
+			st.IFF1, st.IFF2 = p.iff, p.iff
+			toCPU(&st, cpu)
+			tmem := obs.NewMem(bg)
+			tmem.Limit = 200000
+			for _, pk := range p.code {
+				tmem.Poke(pk.Addr, pk.Data...)
+			}
+			twin := &z80.CPU{Memory: tmem, IO: &obs.IO{X: 0x21, Y: 0x35}}
+			toCPU(&st, twin)
+			var errT, errR error
+			var fin bool
+			var pan interface{}
+			func() {
+				defer func() { pan = recover() }()
+				errT, _, fin = twinRun(twin, 5000)
+				if fin {
+					errR = cpu.Run(bgCtx)
+				}
+			}()
+			n++
+			if pan != nil || (fin && (errR != errT || cpu.States != twin.States || cpu.HALT != twin.HALT)) {
+				where := fmt.Sprintf("element %d of a []z80.CPU", wi)
+				if wi >= 5 {
+					where = []string{"a z80.CPU field behind a uint32 in a struct", "a z80.CPU field behind a uint8 in a struct"}[wi-5]
+				}
+				c.Report("c08/placement:"+p.name, int64(pi*10+wi), "", map[string]interface{}{"program": p.name, "cpu_lives_in": where}, []string{fmt.Sprintf("program %q run on %s: panic %v; Run returned %v (twin: %v)", p.name, where, pan, errR, errT)})
+				break
+			}
+		}
+	}
+	c.Evaluations += n
+	c.Nontrivial += n
 }
